@@ -445,8 +445,9 @@ def gen_action(w, kind, action_map):
     elif kind == "set_contact_field":
         nm = word(rng)
         a["field"] = {"key": nm.lower().replace(" ", "_"), "name": nm}
-        if w.f.get("typed_field") and rng.random() < 0.7:
-            a["field"]["type"] = rng.choice(["text", "numeric", "datetime"])
+        if rng.random() < 0.45:
+            # an ordinary case since "fix: a typed contact field reference renders its own type"
+            a["field"]["type"] = rng.choice(["text", "numeric", "datetime", "state", "district", "ward"])
             w.count("typed_field_ref")
         elif rng.random() < 0.15:
             a["field"]["type"] = rng.choice([None, ""])
@@ -708,7 +709,10 @@ def gen_trigger(w):
     return t
 
 
-FEATURES = ["typed_field", "group_attrs", "default_not_last", "exit_order", "shared_exit"]
+# input classes of the findings that are still open (category/exit order is rebuilt from the router's
+# category slots).  Typed field references and top-level group attributes used to be here: since their
+# repairs they are ordinary cases of every stream.
+FEATURES = ["default_not_last", "exit_order", "shared_exit"]
 
 
 def gen_doc(rng, feats, action_map):
@@ -739,12 +743,16 @@ def gen_doc(rng, feats, action_map):
     groups = []
     for g in w.groups:
         g = dict(g)
-        if "group_attrs" in feats and rng.random() < 0.7:
-            for k in rng.sample(GROUP_OPT, rng.choice([1, 2, 4])):
-                g[k] = {"query": rng.choice(["age > 10", ""]), "status": rng.choice(["ready", "initializing"]),
+        r = rng.random()
+        if r < 0.5:
+            # an ordinary case since "fix: validate() keeps query/status/system/count of the container's groups";
+            # attributes in the order RapidPro writes them, or (for 2 of them) reversed
+            ks = [k for k in GROUP_OPT if rng.random() < 0.6] or [rng.choice(GROUP_OPT)]
+            for k in ks:
+                g[k] = {"query": rng.choice(["age > 10", "", None]), "status": rng.choice(["ready", "initializing"]),
                         "system": rng.choice([True, False]), "count": rng.choice([0, 12])}[k]
             w.count("top_level_group_with_attrs")
-        elif rng.random() < 0.3:
+        elif r < 0.65:
             g["query"] = None
         if rng.random() < 0.5:
             g = dict(reversed(list(g.items())))
@@ -976,9 +984,10 @@ def run(ctx):
     v.coverage["distinct_nontrivial"] = len(nontrivial)
     v.coverage["rule"] = (
         "generated RapidPro export documents: 55% canonical (the stream on which the property must hold: every action kind of "
-        "action_map incl. pass-through kinds with unknown extra fields, optional fields present/absent/empty/null, categories shared "
+        "action_map incl. pass-through kinds with unknown extra fields, optional fields present/absent/empty/null, typed and untyped "
+        "contact-field references, top-level groups with and without query/status/system/count, categories shared "
         "by cases, all node kinds, 0..8 nodes, _ui positions, campaigns with M/F events, triggers in new/keywords-only/legacy form, "
-        "shuffled key order), 30% with defect-trigger input classes (typed field reference, top-level group attributes, default "
+        "shuffled key order), 30% with the input classes of the open findings (default "
         "category not last, exits not in category order, exit shared by categories), 15% malformed (one structural fault). "
         "Each valid document: oracle render(load d) vs norm d field by field + idempotence + input untouched on the implementation; "
         "every document: extracted model vs implementation on the full output. non-trivial = distinct set of construct kinds "
